@@ -4,6 +4,7 @@ import (
 	"encoding/json"
 	"fmt"
 	"math/rand"
+	"runtime"
 	"sort"
 	"strings"
 	"sync"
@@ -17,7 +18,7 @@ import (
 func init() {
 	mon.Register(&mon.Prop{
 		ID: "C08", StallDetector: true, Race: true, Level: "exploration",
-		Rule: "cold start: in every child process the first use of the package is one goroutine per default table requesting it at the same moment; counting clause: coding sequences of length 0..10^5 in any case, lengths not divisible by 3, non-ACGT letters, on deep copies of all 25 tables; history clause: every operation sequence up to length 4 over {request default table, re-weight, add, compromise, serialise/parse} on two table ids with two coding sequences (complete DFS) plus random histories of length 5..8 on three ids, every live table read back after every step and compared with a value-semantics model (and, on mismatch, with the defect model of the listed known finding); concurrent clause: 16 goroutines re-weighting tables with pairwise different ids per round under the race detector; non-trivial = history with >= 2 steps, or a coding sequence of >= 2 codons; distinct by hash of the history / sequence",
+		Rule: "cold start: in every child process the first use of the package is one goroutine per default table requesting it at the same moment; churn: series of 80..900 different sequences of one length (1,024..100,000) in freshly allocated strings; counting clause: coding sequences of length 0..10^5 in any case, lengths not divisible by 3, non-ACGT letters, on deep copies of all 25 tables; history clause: every operation sequence up to length 4 over {request default table, re-weight, add, compromise, serialise/parse} on two table ids with two coding sequences (complete DFS) plus random histories of length 5..8 on three ids, every live table read back after every step and compared with a value-semantics model (and, on mismatch, with the defect model of the listed known finding); concurrent clause: 16 goroutines re-weighting tables with pairwise different ids per round under the race detector; non-trivial = history with >= 2 steps, or a coding sequence of >= 2 codons; distinct by hash of the history / sequence",
 		Assumptions: []string{
 			"value-semantics model: get, parse(serialise), add, compromise create independent tables; re-weight returns a handle on the receiver's table with weights = in-frame case-insensitive counts; the receiver handle itself is not inspected again (the method documents in-place mutation)",
 			"compromise values are C18's subject: here a compromise result is only required to keep its creation-time value and the genetic code",
@@ -478,6 +479,51 @@ func runC08(w *mon.W) {
 					w.Violation(id, fmt.Sprintf("table %d re-weighted with %q: codon %s (%s) has weight %d, it occurs %d times in frame", tid, clip(seq, 60), c, l, wt, cnt[c]), map[string]any{"table": tid, "sequence": seq})
 					break
 				}
+			}
+		}
+		w.End()
+	}
+
+	// ---- churn: many different sequences of one and the same length, each in a freshly allocated string that
+	// becomes garbage right after its call (a later string of that length is likely to be placed where an
+	// earlier one was): each result depends on the letters of that call's argument only
+	nChurn := w.Pick(16, 64)
+	for k := 0; k < nChurn; k++ {
+		id := fmt.Sprintf("churn-%d", k)
+		idx++
+		if !w.Want(id, idx) {
+			continue
+		}
+		r := w.Rand(id)
+		L := []int{100000, 30000, 65536, 4096, 1024 + r.Intn(3000)}[k%5]
+		rounds := w.Pick(80, 300)
+		if L < 50000 {
+			rounds *= 3
+		}
+		w.Begin(id, fmt.Sprintf("%d different sequences of %d letters one after the other", rounds, L))
+		bad := false
+		for i := 0; i < rounds && !bad; i++ {
+			tid := tableIDs[r.Intn(len(tableIDs))]
+			seq := randString(r, "ACGT", L)
+			t := deepTable(tid)
+			var t2 codon.Table
+			if p := mon.Try(func() { t2 = t.OptimizeTable(seq) }); p != "" {
+				w.Violation(id, fmt.Sprintf("OptimizeTable on a %d-letter sequence, table %d: %s", L, tid, p), map[string]any{"table": tid, "sequence": seq})
+				break
+			}
+			w.Eval(true, mon.Hash64(fmt.Sprint(tid), seq))
+			w.Add("churn_calls", 1)
+			cnt := countCodons(seq)
+			for l, cs := range snapshot(t2).AA {
+				for c, wt := range cs {
+					if wt != cnt[c] && !bad {
+						w.Violation(id, fmt.Sprintf("call %d of a series of %d-letter sequences, table %d: codon %s (%s) has weight %d, it occurs %d times in frame in this call's sequence", i, L, tid, c, l, wt, cnt[c]), map[string]any{"table": tid, "sequence": seq})
+						bad = true
+					}
+				}
+			}
+			if i%16 == 15 {
+				runtime.GC()
 			}
 		}
 		w.End()
